@@ -26,11 +26,15 @@ pub fn channels_import( lib: &Lib ){
             is_imported("tokio");
         },
 
-        Lib::Std |
+        Lib::Std => {
+            is_imported("oneshot");
+        },
         Lib::AsyncStd  => {
+            is_imported("async-std");
             is_imported("oneshot");
         },
         Lib::Smol => { 
+            is_imported("smol");
             is_imported("async-channel");
             is_imported("oneshot");
         }
